@@ -387,7 +387,6 @@ func genMacroGraph(r *Rand) *Project {
 	return p
 }
 
-
 // richDoc: one small document that uses every lexical construct of the language (all
 // directive kinds, # and ### comments, // and /* */ annotations, quoted parameters with
 // escapes, explicit contexts, jsight / regex / enum / text bodies). The C01 "truncate" phase
